@@ -1,5 +1,121 @@
-//! TypeMap queries over hand-made class graphs (C17). Filled in with the C17 check.
+//! TypeMap queries over hand-made class graphs (C17).
+//!
+//! request : {"id", "classes": [<metatypes class JSON>...], "queries": [{"q": "derived"|"prop"|"method"|"type"|"variant"|"common", ...}]}
+//! response: {"id", "answers": [...]}; a query that exceeds the deadline makes the process print {"id", "timeout": true,
+//! "at": <query index>} and exit(3) (the driver restarts after it).
+
+use qmluic::metatype;
+use qmluic::typemap::{Class, ImportedModuleSpace, ModuleData, ModuleId, NamedType, TypeMap, TypeSpace as _};
+use serde_json::{json, Value};
+use std::io::{self, BufRead, Write};
+use std::sync::atomic::{AtomicU64, Ordering};
+use std::sync::{Arc, Mutex};
+use std::time::{Duration, Instant};
+
+fn class_of<'a>(type_map: &'a TypeMap, name: &str) -> Option<Class<'a>> {
+    // the space a document sees: builtin (primitive) types plus the module
+    let mut module = ImportedModuleSpace::new(type_map);
+    assert!(module.import_module(ModuleId::Builtins));
+    assert!(module.import_module(ModuleId::Named("m")));
+    match module.get_type(name) {
+        Some(Ok(NamedType::Class(c))) => Some(c),
+        _ => None,
+    }
+}
+
+fn answer(type_map: &TypeMap, q: &Value) -> Value {
+    let s = |k: &str| q[k].as_str().unwrap_or("");
+    let cls = match class_of(type_map, s("c")) {
+        Some(c) => c,
+        None => return json!({"noclass": true}),
+    };
+    match s("q") {
+        "derived" => match class_of(type_map, s("b")) {
+            Some(b) => json!({"derived": cls.is_derived_from(&b)}),
+            None => json!({"noclass": true}),
+        },
+        "prop" => match cls.get_property(s("n")) {
+            Some(Ok(p)) => json!({"found": true, "owner": p.object_class().name()}),
+            Some(Err(e)) => json!({"found": false, "err": e.to_string()}),
+            None => json!({"found": false}),
+        },
+        "method" => match cls.get_public_method(s("n")) {
+            Some(Ok(m)) => json!({"found": true, "owner": m.iter().next().map(|x| x.object_class().name().to_owned())}),
+            Some(Err(e)) => json!({"found": false, "err": e.to_string()}),
+            None => json!({"found": false}),
+        },
+        "type" => match cls.get_type(s("n")) {
+            Some(Ok(NamedType::Enum(en))) => json!({"found": true, "enum": en.qualified_cxx_name()}),
+            Some(Ok(_)) => json!({"found": true, "enum": Value::Null}),
+            Some(Err(e)) => json!({"found": false, "err": e.to_string()}),
+            None => json!({"found": false}),
+        },
+        "variant" => match cls.get_enum_by_variant(s("n")) {
+            Some(Ok(en)) => json!({"found": true, "enum": en.qualified_cxx_name(), "lists": en.contains_variant(s("n"))}),
+            Some(Err(e)) => json!({"found": false, "err": e.to_string()}),
+            None => json!({"found": false}),
+        },
+        "common" => match class_of(type_map, s("b")) {
+            Some(b) => match cls.common_base_class(&b) {
+                Some(Ok(c)) => json!({"found": true, "base": c.name()}),
+                Some(Err(e)) => json!({"found": false, "err": e.to_string()}),
+                None => json!({"found": false}),
+            },
+            None => json!({"noclass": true}),
+        },
+        _ => json!({"badquery": true}),
+    }
+}
+
 pub fn cmd_typemap() {
-    eprintln!("typemap: not built yet");
-    std::process::exit(2);
+    let deadline_ms = 2000u64;
+    let started = Arc::new(AtomicU64::new(0));
+    let current = Arc::new(Mutex::new((String::new(), 0usize)));
+    let t0 = Instant::now();
+    {
+        let started = started.clone();
+        let current = current.clone();
+        std::thread::spawn(move || loop {
+            std::thread::sleep(Duration::from_millis(100));
+            let s = started.load(Ordering::SeqCst);
+            if s != 0 && t0.elapsed().as_millis() as u64 > s + deadline_ms {
+                let (id, at) = current.lock().unwrap().clone();
+                let stdout = io::stdout();
+                let mut w = stdout.lock();
+                let _ = writeln!(w, "{}", json!({"id": serde_json::from_str::<Value>(&id).unwrap_or(Value::Null), "timeout": true, "at": at}));
+                let _ = w.flush();
+                std::process::exit(3);
+            }
+        });
+    }
+    let stdin = io::stdin();
+    let stdout = io::stdout();
+    for line in stdin.lock().lines() {
+        let line = line.unwrap();
+        if line.trim().is_empty() {
+            continue;
+        }
+        let req: Value = serde_json::from_str(&line).expect("request json");
+        let classes: Vec<metatype::Class> = req["classes"]
+            .as_array()
+            .expect("classes")
+            .iter()
+            .map(|c| serde_json::from_value(c.clone()).expect("class json"))
+            .collect();
+        let mut type_map = TypeMap::with_primitive_types();
+        let mut module_data = ModuleData::with_builtins(); // as load_type_map() of the command line tool does
+        module_data.extend(classes);
+        type_map.insert_module(ModuleId::Named("m"), module_data);
+        let mut answers = Vec::new();
+        for (i, q) in req["queries"].as_array().expect("queries").iter().enumerate() {
+            *current.lock().unwrap() = (req["id"].to_string(), i);
+            started.store(t0.elapsed().as_millis() as u64 + 1, Ordering::SeqCst);
+            let a = answer(&type_map, q);
+            started.store(0, Ordering::SeqCst);
+            answers.push(a);
+        }
+        let mut w = stdout.lock();
+        writeln!(w, "{}", json!({"id": req["id"], "answers": answers})).unwrap();
+        w.flush().unwrap();
+    }
 }
